@@ -18,6 +18,14 @@ import Asn1Verif.Front.Ast
   no budget of the mirror's own.  (Before the repair the chase had no bound and a cyclic import of
   an undefined name overflowed the stack.)
 
+  The argument above is proved, not only told: `chase_fuel_irrelevant` in
+  `Front/ResolveChaseLemmas.lean` (pigeonhole `exists_dup_of_subset`, periodicity
+  `chase_none_of_cycle`), stated for the two chases as `chase_bound_never_observable` and
+  `chase_bound_never_observable_definition` in Props/C12.lean: for every module, scope, name and
+  every budget `k ≥ chaseFuel scope` the chase with budget `k` answers what the chase with budget
+  `chaseFuel scope` answers.  The first module need not be in `scope`; the bound is exactly the
+  smallest one with that property (`chase_bound_sharp` in Props/C12.lean).
+
   The result type of the chase stays `FR`: the chase itself never fails (`chase_total` in
   Props/C12.lean), its callers turn `none` into their error.
 -/
